@@ -64,11 +64,19 @@ UNITS["C02"] = [
 ]
 
 UNITS["C12"] = [
+    dict(kind="structural", name="c12_lag_stops", check="sub_lag_stops", file="crates/klukai-agent/src/api/public/pubsub.rs", fn="forward_sub_to_sender",
+         trusted=["tokio broadcast: a receiver that fell behind gets RecvError::Lagged before any later event; mpsc try_send fails iff the buffer is full or closed"]),
+    dict(kind="verus", name="c12_server", template="specs/c12_server.vrs",
+         under_contract=["frag_catch_up_retries", "frag_hand_over", "lemma_append_run"], vacuity=["frag_catch_up_retries", "frag_hand_over"],
+         trusted=["catch_up_sub_from / Matcher::changes_since: forwards every retained change with id > from in ascending order and returns the largest id read (SQL `WHERE id > ? ORDER BY id ASC`); the retained change log has no gap above the resume point",
+                  "EvtTx::send / send_error: the mpsc sender towards the HTTP body, viewed as the sequence of change ids written"],
+         assumptions=["fragments of the async fn catch_up_sub wrapped as functions: `.await` dropped on the stand-in calls, tracing macros and the 100 ms sleep dropped, `return;` -> return Exit::Return with the locals",
+                      "the live events buffered during the catch-up read carry consecutive ids (Matcher numbering: +1 per event) — stated as the fragments' precondition"]),
     dict(kind="verus", name="c12_client", template="specs/c12_client.vrs",
          under_contract=["SubscriptionStream::handle_change", "SubscriptionStream::handle_eoq", "ChangeId::add"],
          drivers=["accept_all"],
          vacuity=["handle_eoq", "handle_change", "accept_all"],
-         assumptions=["change ids < u64::MAX (they are SQLite INTEGER values); only the client-library clause of C12 is decided — server-side catch-up races are concurrent async code and are NOT decided"]),
+         assumptions=["change ids < u64::MAX (they are SQLite INTEGER values); the client-library clause; the server clause is decided by units c12_server / c12_lag_stops"]),
 ]
 
 UNITS["C18"] = [
